@@ -131,9 +131,9 @@ theorem C07_independent_history_full (hist : List (Bool × Op)) (b : Tree) : ∀
     obtain ⟨hk, hsl, ht, hr⟩ := hs (n, op) (by simp)
     simp only [runHist]
     refine ih _ (C01_step_Full f n op hf hk) ?_ ?_ (fun s hs' => hs s (by simp [hs']))
-    · exact C01_roots_parentless (lcs := true) (nb := true) (scp := none) (sat := false) f n op hfree
+    · exact C01_roots_parentless (lcs := true) (nb := true) (scp := none) (sat := true) f n op hfree
         (by cases op <;> first | rfl | simp [IsSlice] at hsl)
-    · exact C07_independent_call_full (lcs := true) (nb := true) (scp := none) (sat := false) f n op b hf hfree hk hb ht hr hsl
+    · exact C07_independent_call_full (lcs := true) (nb := true) (scp := none) (sat := true) f n op b hf hfree hk hb ht hr hsl
 
 /-! ## Flags (F17) -/
 
